@@ -14,8 +14,8 @@ TITLE = "Pareto-set extraction vs Lean model"
 RULE = ("cases: (cone with integer rows, list of dyadic-lattice vectors); shapes: exhaustive small "
         "lattices (thorough), random with duplicates, chains, antichains, facet ties; cone matrix stored as float, "
         "int64, int32 or nested int list (integer dtypes with quarter-lattice fractional data); 'ulp' family (differences "
-        "2^-40…2^-50 around ties; integer-row cones scaled by 2^±40); bundled float cones (ConeOrder3D, ConeTheta2D, "
-        "ice-cream) on {0..3}^m lattices incl. all pairs of {0..3}^3 — compared only where the float path is proved to "
+        "2^-40…2^-50 around ties; integer-row cones scaled by 2^±40); bundled float cones (the order SUBCLASSES ComponentwiseOrder 2…4 — exhaustive small "
+        "lattices —, ConeOrder3D, ConeTheta2DOrder, ice-cream) on {0..3}^m lattices incl. all pairs of {0..3}^3 — compared only where the float path is proved to "
         "take the exact decisions (all summation orders / FMA replayed in Fractions); non-trivial = at "
         "least one point is eliminated and at least two kept values or a duplicate value present; "
         "distinct by (cone, vectors)")
@@ -128,12 +128,15 @@ _bundled_cache = {}
 
 
 def _bundled_order(spec):
-    """real bundled order objects (real constructors), cached: ["cone3d", kind] | ["theta", deg] | ["ice", deg, K]"""
+    """real bundled order objects — the SUBCLASSES themselves, so that a method overridden in one of them is
+    exercised — cached: ["comp", m] | ["cone3d", kind] | ["theta", deg] | ["ice", deg, K]"""
     key = tuple(spec)
     if key not in _bundled_cache:
-        from vopy.order import ConeOrder3D, ConeOrder3DIceCream, ConeTheta2DOrder
+        from vopy.order import ComponentwiseOrder, ConeOrder3D, ConeOrder3DIceCream, ConeTheta2DOrder
 
-        if spec[0] == "cone3d":
+        if spec[0] == "comp":
+            o = ComponentwiseOrder(spec[1])
+        elif spec[0] == "cone3d":
             o = ConeOrder3D(spec[1])
         elif spec[0] == "theta":
             o = ConeTheta2DOrder(spec[1])
@@ -206,9 +209,25 @@ def gen_round3(ctx):
                 if k % ctx.nworkers != ctx.worker:
                     continue
                 yield {"kind": "bundled", "order": spec, "X": [pts3[i], pts3[j]], "shape": "lattice-pair"}
+    # ComponentwiseOrder(m) itself, exhaustively on small tie-heavy lattices (duplicates, equal coordinates)
+    lat = {2: [list(map(float, p)) for p in itertools.product(range(3), repeat=2)],
+           3: [list(map(float, p)) for p in itertools.product(range(2), repeat=3)],
+           4: [list(map(float, p)) for p in itertools.product(range(2), repeat=4)]}
+    for m, sizes in [(2, [1, 2, 3]), (3, [2, 3]), (4, [2])]:
+        if ctx.tier == "thorough":
+            sizes = sizes + [sizes[-1] + 1]
+        for n in sizes:
+            for combo in itertools.combinations_with_replacement(range(len(lat[m])), n):
+                k += 1
+                if k % ctx.nworkers != ctx.worker:
+                    continue
+                X = [lat[m][i] for i in combo]
+                if k % 2:
+                    X = X[::-1]
+                yield {"kind": "bundled", "order": ["comp", m], "X": X, "shape": "comp-exhaustive"}
     for _ in range(ctx.n(300, 30000)):
-        spec = rng.choice(BUNDLED_3D + BUNDLED_2D)
-        m = 2 if spec[0] == "theta" else 3
+        spec = rng.choice(BUNDLED_3D + BUNDLED_2D + [["comp", 2], ["comp", 3], ["comp", 4]])
+        m = spec[1] if spec[0] == "comp" else (2 if spec[0] == "theta" else 3)
         n = rng.choice([3, 3, 3, 4, 5, 6])
         X = [[float(rng.randint(0, 3)) for _ in range(m)] for _ in range(n)]
         yield {"kind": "bundled", "order": spec, "X": X, "shape": "lattice-triple" if n == 3 else "lattice-set"}
